@@ -642,4 +642,65 @@ def tower (fl : Rat → Rat) : Nat → Base
   | 0 => leafBase fl
   | n + 1 => sumBase (leafBase fl) (corralOver fl (tower fl n))
 
+/-! ### action identity: `make_hashable` and Python `==` on the offered objects
+
+The learner models above identify an action with a natural number.  This is the justification: the
+key `make_hashable` computes depends on the CONTENTS of a dense / sparse action only, not on the
+container flavour; Python's `==` between two offered objects does the same except for two pairs of
+flavours (list vs tuple, and two OrderedDicts in different order), where `==` is `False` although
+the keys coincide. -/
+
+inductive Scalar
+  | num (q : Rat)          -- int, float, bool: equal by value
+  | str (s : String)
+deriving DecidableEq, Repr
+
+inductive DFlav | list | tuple | row      -- tuple also covers HashableDense (a tuple subclass); row = coba's Dense row objects
+deriving DecidableEq, Repr
+
+inductive SFlav | dict | odict | mapping  -- mapping = MappingProxyType, UserDict, coba's Sparse row objects, HashableSparse
+deriving DecidableEq, Repr
+
+inductive PyAct
+  | scalar (s : Scalar)
+  | dense (f : DFlav) (xs : List Scalar)
+  | sparse (f : SFlav) (kv : List (Scalar × Scalar))     -- items in iteration order, keys distinct
+deriving Repr
+
+inductive Key
+  | scalar (s : Scalar)
+  | hdense (xs : List Scalar)                 -- HashableDense(tuple(items))
+  | hsparse (kv : List (Scalar × Scalar))     -- HashableSparse: compared as frozenset(items)
+deriving Repr
+
+def makeHashable : PyAct → Key
+  | .scalar s => .scalar s
+  | .dense _ xs => .hdense xs
+  | .sparse _ kv => .hsparse kv
+
+def sameItems (a b : List (Scalar × Scalar)) : Bool := a.all (fun x => b.contains x) && b.all (fun x => a.contains x)
+
+/-- `==` (and hash agreement) of two keys, i.e. whether `_Q/_N/_m/_s` treat them as one entry -/
+def Key.same : Key → Key → Bool
+  | .scalar a, .scalar b => a == b
+  | .hdense a, .hdense b => a == b
+  | .hsparse a, .hsparse b => sameItems a b
+  | _, _ => false
+
+/-- equality of the contents, blind to the container flavour -/
+def contentsEq : PyAct → PyAct → Bool
+  | .scalar a, .scalar b => a == b
+  | .dense _ a, .dense _ b => a == b
+  | .sparse _ a, .sparse _ b => sameItems a b
+  | _, _ => false
+
+/-- Python `a == b` on the offered objects -/
+def pyEq : PyAct → PyAct → Bool
+  | .scalar a, .scalar b => a == b
+  | .dense f a, .dense g b =>
+    if (f = .list ∧ g = .tuple) ∨ (f = .tuple ∧ g = .list) then false else a == b
+  | .sparse f a, .sparse g b =>
+    if f = .odict ∧ g = .odict then a == b else sameItems a b
+  | _, _ => false
+
 end Coba.C16
